@@ -43,7 +43,10 @@ def roundTrip (pool : Pool) (v : Value) : String :=
   match fromValue noPrims true pool 0 v with
   | none => "err"
   | some fs =>
-    match toValueMsg pool 0 fs with
+    let fs' := match pool.msg 0 with
+      | some md => normFields pool true md.fields fs
+      | none => fs
+    match toValueMsg pool 0 fs' with
     | none => "perr"
     | some x => "ok " ++ showValue x
 
@@ -75,7 +78,7 @@ def handle (op : String) (args : List String) : Option String :=
     else
       match fromValue noPrims true pool 0 v with
       | none => pure "err"
-      | some fs => pure ("ok " ++ showPV (normalize pool (.message 0 fs)))
+      | some fs => pure ("ok " ++ showPV (normalize pool false (.message 0 fs)))
   | "c26.parse", [_, p, pv] => do
     let pool ← poolOfString p
     let pv ← pvOfString pv
@@ -90,7 +93,7 @@ def handle (op : String) (args : List String) : Option String :=
     let pool ← poolOfString p
     let b ← pvOfString before
     let a ← pvOfString after
-    pure (if showPV (normalize pool b) == showPV a then "holds" else "fails wire_law:-")
+    pure (if showPV (normalize pool true b) == showPV a then "holds" else "fails wire_law:-")
   | "f32.of_f64", [b] => do
     let b ← natOfHexChars b.toList
     pure (hex8 (F32.ofF64 b))
